@@ -1074,6 +1074,28 @@ func (g *TransferGen) RunForge() {
 		g.deliver(t2)
 	}
 	g.tokenOracles()
+	// laundering through a third chain: a *three*-segment native class nft/<A>/<base> issued on B
+	// and sent to C would be extended there to nft/A/C/<base>, the class path of a voucher that
+	// came from A; returned C -> A it would release A's escrowed <base>/<id>. (The send from B
+	// must be refused: a native class may not contain the path delimiter.)
+	if len(w.Chains) >= 3 && !g.relay {
+		cIdx := 2
+		C := g.chain(cIdx)
+		forged3 := "nft/" + A.ChainName + "/" + base
+		if w.NftIssue(B, 2, forged3, false).Code != 0 {
+			return
+		}
+		g.nftAfterMint(B, forged3, id, w.NftMint(B, 2, forged3, id, "uri", w.Acct(b, 2).String()))
+		if t3 := g.nftXfer(b, 2, forged3, id, w.Acct(cIdx, 2).String(), C.ChainName, ""); t3 != nil && g.deliver(t3) {
+			if vc := g.voucherOn(cIdx, id, w.Acct(cIdx, 2).String()); vc != "" {
+				if t4 := g.nftXfer(cIdx, 2, vc, id, w.Acct(a, 2).String(), A.ChainName, ""); t4 != nil {
+					g.deliver(t4)
+				}
+			}
+		}
+		g.stat("script.forge.three-segment-class")
+		g.tokenOracles()
+	}
 }
 
 // RunRoundTrip: send a native token of a random class the NFT module accepts along a random
